@@ -80,7 +80,7 @@ func TestC02(t *testing.T) {
 			}
 			got, err := zson.ParseValue(zed.NewContext(), text)
 			if err != nil {
-				run.Violation(fmt.Sprintf("roundtrip how=%s symptom=formatted-text-does-not-parse kind=%s", strings.Split(how, "(")[0], kindOf(v.Val)),
+				run.Violation(fmt.Sprintf("roundtrip how=%s symptom=formatted-text-does-not-parse kind=%s error=%s", strings.Split(how, "(")[0], kindOf(v.Val), c02ErrClass(err)),
 					map[string]any{"value": v.Name, "text": text, "error": err.Error()})
 				continue
 			}
@@ -105,7 +105,7 @@ func TestC02(t *testing.T) {
 			text := safeFormat(func() string { return zson.FormatValue(v) })
 			got, err := zson.ParseValue(zed.NewContext(), text)
 			if err != nil {
-				run.Violation(fmt.Sprintf("roundtrip how=FormatValue symptom=formatted-text-does-not-parse kind=two-field-record(%s,%s)", kindOf(a.Val), kindOf(b.Val)),
+				run.Violation(fmt.Sprintf("roundtrip how=FormatValue symptom=formatted-text-does-not-parse kind=two-field-record(%s,%s) error=%s", kindOf(a.Val), kindOf(b.Val), c02ErrClass(err)),
 					map[string]any{"value": name, "text": text, "error": err.Error()})
 			} else if !gen.ValueEq(v, got) {
 				run.Violation(fmt.Sprintf("roundtrip how=FormatValue symptom=value-changed kind=two-field-record(%s,%s)", kindOf(a.Val), kindOf(b.Val)),
@@ -265,16 +265,24 @@ func describeAll(vs []zed.Value) []string {
 	return out
 }
 
+// c02ErrClass is the parser's complaint with quoted names removed: it names the
+// construct the parser rejected.
+func c02ErrClass(err error) string {
+	return rep.Short(c02QuotedRe.ReplaceAllString(err.Error(), `"..."`), 90)
+}
+
+var c02QuotedRe = regexp.MustCompile(`"[^"]*"`)
+
 var dupKeyRe = regexp.MustCompile(`"a":[^,{}]*,"a":`)
 
 func jsonClass(d string) string {
 	switch {
 	case dupKeyRe.MatchString(d):
 		return "duplicate-keys"
-	case strings.ContainsAny(d, "eE") && !strings.Contains(d, "true") && !strings.Contains(d, "false"):
-		return "exponent"
 	case strings.Contains(d, `\u`):
 		return "unicode-escape"
+	case strings.ContainsAny(d, "eE") && !strings.Contains(d, "true") && !strings.Contains(d, "false"):
+		return "exponent"
 	case strings.Contains(d, "-0"):
 		return "negative-zero"
 	case strings.Contains(d, "12345678901234567890"), strings.Contains(d, "9223372036854775808"), strings.Contains(d, "9223372036854775809"):
@@ -286,7 +294,9 @@ func jsonClass(d string) string {
 // jsonDocs enumerates a bounded JSON grammar.
 func jsonDocs(deep bool) []string {
 	scalars := []string{`0`, `-0`, `1`, `-1`, `1.5`, `-1.5`, `1e3`, `1E-2`, `1.0`, `1e400`, `12345678901234567890`, `9223372036854775807`, `9223372036854775808`, `-9223372036854775809`,
-		`true`, `false`, `null`, `""`, `"a"`, `"\n"`, `"\""`, `"\\"`, `"é"`, `"😀"`, `"\/"`, `"1.2.3.4"`, `"2024-01-01T00:00:00Z"`}
+		`true`, `false`, `null`, `""`, `"a"`, `"\n"`, `"\""`, `"\\"`, `"é"`, `"😀"`, `"\/"`, `"1.2.3.4"`, `"2024-01-01T00:00:00Z"`,
+		// \u escapes: ASCII, Latin-1, a control code, and surrogate pairs at the start, after ASCII, after a multi-byte rune and followed by more text
+		`"\u0041"`, `"\u00e9"`, `"\u001f"`, `"\b\f\r\t"`, `"\ud83d\ude00"`, `"a\ud83d\ude00"`, `"\ud83d\ude00b"`, `"é\ud83d\ude00é"`, `"\ud83d\ude00\ud83d\ude01"`}
 	few := []string{`1`, `"a"`, `null`, `1.5`, `true`}
 	var level1 []string
 	level1 = append(level1, `[]`, `{}`)
@@ -301,7 +311,7 @@ func jsonDocs(deep bool) []string {
 	docs := append([]string(nil), scalars...)
 	docs = append(docs, level1...)
 	// whitespace and multi-document variants
-	docs = append(docs, " 1 ", "\n{ \"a\" : 1 }\n", "[ 1 , 2 ]", "1 2", `{"a":1} {"b":2}`, "1\n\"a\"\n", `{"a b":1}`, `{"":1}`, `{"é":1}`, `{"true":1}`, `{"a":{"a":{"a":1}}}`)
+	docs = append(docs, " 1 ", "\n{ \"a\" : 1 }\n", "[ 1 , 2 ]", "1 2", `{"a":1} {"b":2}`, "1\n\"a\"\n", `{"a b":1}`, `{"":1}`, `{"é":1}`, `{"true":1}`, `{"a":{"a":{"a":1}}}`, `{"\u0061":1}`, `{"k\ud83d\ude00":1}`)
 	// level 2: containers of level-1 containers (over the small scalar set)
 	var l1small []string
 	for _, s := range few {
